@@ -230,10 +230,18 @@ impl FileHasher<'_> {
         transform: Option<Transform>,
         log: &dyn Log,
     ) -> Result<FileHasher<'_>, Error> {
-        let transform_command_str = transform.as_ref().map(|t| t.command_str.as_str());
+        // The same command gives different data depending on where its result is taken from
+        // (its standard output or the file it was given), so that is a part of the cache identity.
+        let transform_id = transform.as_ref().map(|t| {
+            if t.in_place {
+                format!("{} --in-place", t.command_str)
+            } else {
+                t.command_str.clone()
+            }
+        });
         // A cache that cannot be opened (e.g. left inconsistent by an interrupted run)
         // must only cost time, not make grouping impossible.
-        let cache = match HashCache::open_default(transform_command_str, algorithm) {
+        let cache = match HashCache::open_default(transform_id.as_deref(), algorithm) {
             Ok(cache) => Some(cache),
             Err(e) => {
                 log.warn(format!("{e}. Proceeding without the hash cache."));
